@@ -552,6 +552,59 @@ def rand_tol_prog(rng, nq, ncl, length, params=None):
     return prog, nonu
 
 
+def _umat(u):
+    return [[float(z.real), float(z.imag)] for z in np.asarray(u, complex).reshape(-1)]
+
+
+def rand_near_prog(rng, nq, ncl):
+    """TARGETED: two (or three) branches that end under ONE classical key while carrying quantum states that are close but not
+    equal.  Shape: qubit a in superposition controls a rotation of qubit b by a small angle eps about a random axis (one 4x4
+    unitary); a is then disentangled WITHOUT leaving a distinguishing bit -- reset a | measure a->c, reset a, measure a->c
+    (the bit is overwritten with the same value) | measure a->c, reset a, measure b'->c of a fresh qubit -- optionally twice
+    (a re-superposed in between); finally b is rotated by a random unitary and measured.  The true probability of b's outcome
+    depends on eps at first order, so an implementation that identifies / merges / caches branch states "up to a tolerance"
+    returns a distribution that is off by ~eps/4 (eps from 1e-7 .. 3e-5 and, as controls, 0 and 0.3)."""
+    qs = [int(q) for q in rng.permutation(nq)]
+    a, b = qs[0], qs[1]
+    spare = qs[2:]
+    prog = []
+    # spectators: a measured superposition on another qubit gives several keys, each with its own pair of near branches
+    for q in spare:
+        if rng.random() < 0.5:
+            prog.append(["u", _umat(rand_unitary(rng, 2)), [q]])
+            if rng.random() < 0.6:
+                prog.append(["measure", q, int(rng.integers(0, ncl))])
+    # b: generic state with both amplitudes of comparable size (ry(pi/2) up to a modest random tilt and a phase)
+    prog.append(["ry", float(np.pi / 2 + rng.uniform(-0.5, 0.5)), b])
+    if rng.random() < 0.5:
+        prog.append(["g", ["s", "sx", "h", "z"][int(rng.integers(0, 4))], [b]])
+    rounds = 1 if rng.random() < 0.7 else 2
+    eps_used = []
+    for _ in range(rounds):
+        prog.append(["g", "h", [a]] if rng.random() < 0.6 else ["ry", float(rng.uniform(0.6, 2.5)), a])
+        eps = float(rng.choice([1e-7, 1e-6, 3e-6, 8e-6, 1e-5, 3e-5, 0.0, 0.3])) * float(rng.choice([-1, 1]))
+        eps_used.append(abs(eps))
+        axis = "xyz"[int(rng.integers(0, 3))]
+        p0 = np.diag([1.0, 0.0])
+        p1 = np.diag([0.0, 1.0])
+        cu = np.kron(np.eye(2), p0) + np.kron(_rot(axis, eps), p1)      # operand order [a, b]: a = low bit = control
+        prog.append(["u", _umat(cu), [a, b]])
+        how = int(rng.integers(0, 3))
+        if how == 0:
+            prog.append(["reset", a])
+        else:
+            c = int(rng.integers(0, ncl))
+            prog.append(["measure", a, c])
+            prog.append(["reset", a])
+            touched = {q for i in prog for q in (i[2] if i[0] in ("u", "g") else [i[2]] if i[0] == "ry" else [i[1]])}
+            fresh = [q for q in spare if q not in touched]
+            prog.append(["measure", fresh[0] if (how == 2 and fresh) else a, c])
+    if rng.random() < 0.6:
+        prog.append(["u", _umat(rand_unitary(rng, 2)), [b]])
+    prog.append(["measure", b, int(rng.integers(0, ncl))])
+    return prog, eps_used
+
+
 def features(case):
     prog = case["prog"]
     writes = [i[2] for i in prog if i[0] == "measure"]
@@ -600,6 +653,7 @@ def generate(rng, tier, outdir):
     n_deep = 16 if quick else 240
     n_bad = 200 if quick else 1500
     n_tol = 160 if quick else 1500
+    n_near = 48 if quick else 600
     n_multi = 60 if quick else 600
     n_multiq = 60 if quick else 800
     max_nonu = 8 if quick else 10
@@ -762,6 +816,29 @@ def generate(rng, tier, outdir):
             small = [p for p in truth.values() if 1e-16 < p < 1e-6]
             w.count("tol.has_outcome_prob_in(1e-16,1e-6)", bool(small))
 
+    # ---------------- near-coincident branches (TARGETED): branches sharing one key with close, unequal states ----------------
+    for it in range(n_near):
+        nq = int(rng.integers(2, 6))
+        ncl = int(rng.integers(1, 4))
+        prog, eps_used = rand_near_prog(rng, nq, ncl)
+        case = dict(kind="tol", nq=nq, ncl=ncl, qregs=split_regs(rng, nq), cregs=split_regs(rng, ncl), prog=prog)
+        assert len(prog) <= 20
+        if not _try_run(w, case, sampler):
+            continue
+        v = judge(case)
+        clean(v)
+        truth = true_distribution(case)
+        fn, sam = case["impl_fn"], case["impl_sampler"]
+        lit = (coq_answer(fn), Opt(coq_answer(sam), some=True), coq_pairs(sorted(truth.items())))
+        w.add("nearbranch", "chk_dist", lit, case, nontrivial=True)
+        w.count("near.fn", fn[0])
+        w.count("near.sampler", sam[0])
+        w.count("near.oracle", "violates" if v["violates"] else "agrees")
+        w.count("near.rounds", len(eps_used))
+        w.count("near.has_eps_in[1e-7,3e-5]", any(1e-7 <= e <= 3e-5 for e in eps_used))
+        w.count("near.merge", "reset_only" if not any(i[0] == "measure" and j + 1 < len(prog) and prog[j + 1][0] == "reset"
+                                                     for j, i in enumerate(prog)) else "measure_reset_overwrite")
+
     # ---------------- sampler stream: several circuits / parameter_values / the reused instance ----------------
     for it in range(n_multi):
         ncirc = int(rng.integers(2, 4))
@@ -855,7 +932,11 @@ def generate(rng, tier, outdir):
         "density-matrix oracle to agree. malformed: the same with 1-2 conditioned operations (c_if on bit/register, conditioned "
         "measure/reset, if_test with/without else, expr condition, while_loop, switch) or opaque instructions holding clbits inserted "
         "anywhere; expected Refused. tolerance: arbitrary 1-2 qubit unitaries and tiny rotations around the 1e-16 cut-off; function "
-        "and sampler compared (in Coq, as maps, 1e-9) with the density-matrix oracle only. sampler: one run over 2-3 circuits with "
+        "and sampler compared (in Coq, as maps, 1e-9) with the density-matrix oracle only. nearbranch (targeted): a superposed qubit "
+        "controls a rotation of another qubit by eps in {0, 1e-7 .. 3e-5, 0.3} about a random axis and is then disentangled without a "
+        "distinguishing bit (reset | measure, reset, re-measure into the same bit), once or twice, so that branches under ONE key carry "
+        "close but unequal states; the rotated qubit is then measured (true law depends on eps at first order); same comparison as "
+        "tolerance. sampler: one run over 2-3 circuits with "
         "parametrised rotations and parameter_values; quasi_dists[i] vs the oracle of the i-th bound circuit. samplerq: one run over "
         "1-3 exact-gate-set circuits (sometimes one without Measure / with a c_if: whole call refused), in half of the cases as a SECOND "
         "run after the same circuit objects were extended in place on the same sampler; compared in Coq with Model.sampler_run on QSim. "
